@@ -13,7 +13,7 @@ PROPS = {
         "floors": {
             "quick": {"ops": 100000, "std_triples": 10000, "drift_rechecks": 10000, "exh3_blocks": 96,
                       "unique_table_grows": 100, "lru_overwrites": 1000, "op_compose": 100, "op_condition_model": 100, "op_new_var": 20,
-                      "histories_over_spread_labels": 300},
+                      "histories_over_spread_labels": 300, "histories_with_weak_hashes": 300, "unique_table_hash_clashes": 1000},
             "thorough": {"ops": 2000000, "exh3_blocks": 192},
         },
         "rule": "Every builder call is one evaluation: the returned BddPtr is walked structurally (var, low, high, complement bit) into a truth table and compared with the operation's definition applied to the oracle tables of its arguments (compose = documented exists v.(v<=>g)&f). Regimes: exh3 = all 256 functions of 3 variables x all 6 orders x both caches: all cofactors, exists, negations, all pairs for and/or/xor/iff/compose, ite over all (f,g) and every 16th h (every h in thorough); rand = short random histories (5-80 ops, <=6 vars, random order permutation, both caches, hook capacities from tiny to 1024); long = 800-2000-op histories on <=10 variables with 2..64-slot unique tables and 1..16-slot lossy caches; default (thorough) = library-default capacities. After every 16 ops all earlier results are re-walked (history independence). A case is non-trivial when the expected function is neither constant nor a literal; distinct = distinct (operation, expected function, order, cache kind) tuples (hash set), for exh3 distinct (op, argument indices, order/cache case). Wide regime: the history's (at most 6 + run-time) variables are spread over up to 200 rsdd labels, biased to the 64/128 word boundaries, in a manager that knows every label up to the largest (order = random interleaving); the oracle keeps working on the dense variables through the harness's own label map and level map.",
@@ -27,7 +27,7 @@ PROPS = {
             "quick": {"canon_results": 50000, "canon_repeat_functions": 10000, "nodes_shape_checked": 5000,
                       "membership_lookups": 50000, "histories_with_growth": 500, "lru_overwrites": 1000,
                       "table_ops": 50000, "table_histories_with_growth": 300, "default_table_growths": 2, "big_rederivations": 200000,
-                      "histories_over_spread_labels": 150},
+                      "histories_over_spread_labels": 150, "histories_with_weak_hashes": 400, "unique_table_hash_clashes": 3000},
             "thorough": {"canon_results": 1000000, "default_table_growths": 12},
         },
         "sanitizers": ["miri_table", "miri_bdd", "asan_bdd"],
@@ -40,7 +40,7 @@ PROPS = {
         "floors": {
             "quick": {"ops": 60000, "drift_rechecks": 10000, "histories_compressed": 1000, "histories_uncompressed": 500,
                       "op_compose": 500, "op_exists": 500, "op_condition": 1000, "op_ite": 1000, "unique_table_grows": 500, "exh3_blocks": 96,
-                      "histories_over_spread_labels": 200},
+                      "histories_over_spread_labels": 200, "histories_with_weak_hashes": 300, "unique_table_hash_clashes": 1500},
             "thorough": {"ops": 1500000, "exh3_blocks": 192},
         },
         "rule": "Every SDD builder call (var, negate, and, or, xor, iff, ite, condition, exists, compose) is one evaluation: the returned SddPtr is evaluated structurally (OR over prime&sub, BinarySDD as ite(label,high,low), complement flags) into a truth table and compared with the operation's definition on the oracle tables of the arguments. Regimes: exh3 = all 256 functions of 3 variables under each of the 12 vtrees on 3 leaves (compression on): and/or over all ordered pairs, all cofactors, exists, negation, and xor/iff/compose/ite on every 8th second operand; allvtrees = every vtree on 4 leaves (5 shapes x 24 labellings) and on 3 leaves, each with compression on and off; rand = short histories on random right-linear / left-linear / balanced / random-shape vtrees with random leaf labelling, <=6 variables, 2..1024-slot unique tables; uncompressed = compression off, <=5 variables, <=16 ops (structural Ord on SddPtr is exponential, see DESIGN); long = 300-700-op histories. Every 16 ops all earlier results are re-evaluated. Non-trivial = expected function neither constant nor literal; distinct = distinct (operation, expected function, vtree, compression) tuples. Wide regime: the vtree's variables are spread over up to 200 rsdd labels (a label set with gaps, biased to the 64/128 word boundaries); the oracle keeps working on the dense variables through the harness's own label map.",
@@ -52,7 +52,7 @@ PROPS = {
         "scale": {"quick": 1, "thorough": 30},
         "floors": {
             "quick": {"wf_results": 50000, "nodes_wf_checked": 10000, "canon_repeat_functions": 20000, "histories_with_growth": 500,
-                      "default_table_growths": 1, "big_rederivations": 90000, "histories_over_spread_labels": 200},
+                      "default_table_growths": 1, "big_rederivations": 90000, "histories_over_spread_labels": 200, "histories_with_weak_hashes": 300, "unique_table_hash_clashes": 2000},
             "thorough": {"wf_results": 1000000},
         },
         "sanitizers": ["miri_sdd"],
@@ -197,7 +197,7 @@ PROPS = {
             "quick": {"lru_gets": 300000, "lru_hits": 10000, "lru_overwrites": 100000, "lru_histories_with_growth": 300,
                       "paired_results": 30000, "paired_histories_with_overwrites": 500, "paired_histories_with_cache_growth": 300,
                       "cold_replays": 3000, "ite_table_gets": 40000, "ite_table_lru_hits": 15000, "ite_table_lru_overwrites": 30000,
-                      "ite_table_lru_grows": 300, "lru_default_size_grows": 2},
+                      "ite_table_lru_grows": 300, "lru_default_size_grows": 2, "paired_histories_with_weak_triple_hashes": 400},
             "thorough": {"lru_gets": 8000000},
         },
         "rule": "Four monitors. (a') the two ITE-cache adapters LruIteTable / AllIteTable driven directly through the public IteTable trait (insert / get / hash) on standard triples over a pool of real BDD pointers, as IteChoice, IteComplChoice and IteConst, with the adapter's own hash or caller-supplied colliding hashes (one hash per triple), initial capacity 2^0..2^4: get must return None (lossy) or the value most recently inserted for exactly that triple with the complement flag re-applied; AllIteTable must return exactly the model's value. (a) util::lru::Lru<K,V> driven directly: 50-2500 random insert/get operations per cache on 2-200 keys, initial capacity 2^0..2^6 slots, hashes a function of the key chosen adversarially (spread, 5 buckets, equal low bits that separate only after growth, collisions up to a capacity); every inserted value is fresh, so a stale or foreign value is distinguishable; model = HashMap key -> last value; get must return None or exactly the model's value. (b) The same generated BDD operation history is executed on RobddBuilder<AllIteTable> and on RobddBuilder<LruIteTable> whose cache starts at 2^0..2^4 slots (hook) and whose unique table starts at 2..64 slots; after every operation the two results must have the same canonical serialisation (isomorphism class incl. complement marks). (c) SDD: every 3rd operation of a long-lived CompressionSddBuilder (warm apply and ite caches) is redone in a fresh builder on operands rebuilt from their truth tables by Shannon expansion, and the isomorphism classes must agree. Floors require overwrites, cache growth and cache hits to have been observed. evaluations = caches / paired histories / SDD histories; all non-trivial; distinct = distinct inputs.",
